@@ -108,6 +108,18 @@ def render(sent, mode):
                 if k:
                     t += "\n  " if (words[k - 1] in ("(", ",") or wd == ")") and wd.upper() not in LINE_WORDS else " "
                 t += wd
+        elif mode == "comma-first":
+            t = ""
+            for k, wd in enumerate(words):
+                if k:
+                    t += "\n  " if wd == "," else " "
+                t += wd
+        elif mode == "word-per-line":
+            t = ""
+            for k, wd in enumerate(words):
+                if k:
+                    t += "\n" if wd.upper() not in LINE_WORDS else " "
+                t += wd
         else:
             raise AnalysisError(mode)
         texts.append(t + ";\n")
@@ -168,7 +180,10 @@ def check_seam(ck, ctx, fragments, rules=("O-canon", "O-glue", "O-break")):
                 ref = got
                 if "O-canon" in rules and (err or got != want):
                     bad["O-canon"].setdefault(_where(sent, want, got), (err or f"{_first(got, want)}", _show(canon)))
-                for rule, mode in (("O-glue", "glue"), ("O-break", "break")):
+                modes = [("O-glue", "glue"), ("O-break", "break")]
+                if ck.tier == "thorough":
+                    modes += [("O-break", "comma-first"), ("O-break", "word-per-line")]
+                for rule, mode in modes:
                     if rule not in rules or ref is None:
                         continue
                     text = render(sent, mode)
